@@ -477,6 +477,12 @@ def run_check(mod, prop_id, tier, seed, replay=None):
     else:
         ctx.tie_failures.append({"kind": "build", "what": "extracted model does not build against the current source",
                                  "detail": failed_files or build["steps"]})
+    # With every theorem of the property holding for the model, an input on which the implementation differs from a
+    # model that IS the documented formula is a concrete input on which the property fails (modules opt in: TIE_IS_SPEC).
+    if proof_ok and ctx.tie_failures and not ctx.violations and harness_error is None and getattr(mod, "TIE_IS_SPEC", False):
+        for t in ctx.tie_failures[:10]:
+            ctx.violations.append({"kind": "property", "what": "implementation differs from the proved model (= documented formula) at this input: " + t["what"],
+                                   "case": t["case"], "expected": t["model"], "got": t["implementation"]})
     broken = (not proof_ok) or bool(ctx.tie_failures) or harness_error is not None
     searched = False
     if broken and not ctx.violations and build.get("driver_ok") and harness_error is None and hasattr(mod, "run") and not replay:
